@@ -189,13 +189,13 @@ def step (st : State) (w : List String) : State × String :=
       if wd == "none" then some .absent
       else if wd == "corrupt" || wd == "start-corrupt" then some .corrupt
       else if wd == "zero" || wd == "start-zero" then some .empty
-      else if wd == "unreadable" then some .absent
+      else if wd == "unreadable" || wd == "start-unreadable" then some .absent
       else none
     match tomb, parseBool cd with
     | some t, some cdb =>
       let d : Disk := { tomb := t }
       let live :=
-        if wd.startsWith "start-" then startupKeys [k0] d
+        if wd.startsWith "start-" then startupKeys [k0] d { tombRead := wd == "start-unreadable" }
         else (autoTA params [k0] d [k0] (some { keys := [k0], signers := [k0] })
                 { tombRead := wd == "unreadable" } 0).live
       let secure := route != "insecure"
@@ -205,8 +205,16 @@ def step (st : State) (w : List String) : State × String :=
     | _, _ => (st, "bad-op")
   | ["autota", "boot"] =>
     if !st.started then (st, "bad-op") else
-    let st' := { st with sys := AutoTA.step params st.cfg st.sys .boot }
+    let st' := { st with sys := AutoTA.step params st.cfg st.sys (.boot {}) }
     (st', obs st'.sys)
+  | ["autota", "boot", fl] =>
+    -- the process starts while the files cannot be read (s: state file, t: tombstone store)
+    if !st.started then (st, "bad-op") else
+    match parseFaults fl with
+    | some fl =>
+      let st' := { st with sys := AutoTA.step params st.cfg st.sys (.boot fl) }
+      (st', obs st'.sys)
+    | none => (st, "bad-op")
   | ["autota", "restart"] =>
     if !st.started then (st, "bad-op") else
     let st' := { st with sys := AutoTA.step params st.cfg st.sys .restart }
